@@ -419,7 +419,7 @@ def summarise(prop, tier, seed, obls, results, wall):
         lines.append("KNOWN-FINDING: property=%s %s" % (
             prop, known_db.get(key, {}).get("what", key)))
     replay_paths = []
-    for r in viol[:8]:
+    for r in viol[:200]:
         d = r["detail"]
         blob = json.dumps(d, sort_keys=True, default=repr)
         hh = hashlib.sha256(blob.encode()).hexdigest()[:10]
@@ -428,9 +428,10 @@ def summarise(prop, tier, seed, obls, results, wall):
             json.dump(dict(property=prop, tier=tier, **d), f, indent=1,
                       default=repr)
         replay_paths.append(path)
-        lines.append("VIOLATION property=%s replay=%s" % (prop, path))
-        lines.append("  obligation=%s label=%r shape=%s" % (
-            d["obligation"], d["label"], json.dumps(d["shape"])))
+        if len(replay_paths) <= 8:
+            lines.append("VIOLATION property=%s replay=%s" % (prop, path))
+            lines.append("  obligation=%s label=%r shape=%s" % (
+                d["obligation"], d["label"], json.dumps(d["shape"])))
     if len(viol) > 8:
         lines.append("  ... and %d more violating (obligation, shape) jobs"
                      % (len(viol) - 8))
